@@ -590,7 +590,7 @@ func (w *World) executeSQL(c *Call, pt *Point, dev Deviation) {
 		return
 	}
 	s.StmtCount++
-	if !w.Reach(from, c.Target) {
+	if !w.Reach(from, c.Target) || s.Hung && s.Up {
 		pt.Fails = true
 		w.note(pt, c, false, fmt.Errorf("unreachable: hangs"))
 		w.park(c)
